@@ -35,7 +35,7 @@ func (c Cfg) String() string {
 }
 
 type Op struct {
-	K        string // write reopen rename pause foreign touch restart restart+reopen reopen+idle restart+reopen+idle
+	K        string // write reopen rename pause foreign touch restart restart+reopen reopen+idle restart+reopen+idle wipe+reopen
 	Data     []byte
 	PauseMs  int
 	NoFormat bool
@@ -89,6 +89,7 @@ type Summary struct {
 	Touches               int
 	IdleAfterReopen       int
 	PrunedOutsideRotation int
+	Wipes                 int
 }
 
 // Violation carries the property it belongs to.
@@ -306,13 +307,32 @@ func (r *Runner) Step(op Op) *Violation {
 		return nil
 	case "foreign":
 		r.nforeign++
-		name := []string{"foreign-%d.txt", r.Cfg.FileName + ".bak%d", "zz-" + r.base + "-%d" + r.ext}[r.nforeign%3]
+		name := []string{"foreign-%d.txt", r.Cfg.FileName + ".bak%d", "zz-" + r.base + "-%d" + r.ext,
+			// names that begin like the sink's rotated files but carry another extension
+			r.base + "-0000-README-%d.txt", r.base + "-summary-%d.txt", r.base + "-99999999999999999999-%d.bak"}[(r.nforeign+op.PauseMs)%6]
 		name = fmt.Sprintf(name, r.nforeign)
 		if _, err := os.Stat(r.Dir); err != nil {
 			return nil
 		}
 		r.foreign[name] = true
 		_ = os.WriteFile(filepath.Join(r.Dir, name), []byte("foreign"), 0o644)
+		return nil
+	case "wipe+reopen":
+		// the whole log directory is removed from outside (volume re-provisioned), then the operator signals Reopen:
+		// the directory is created on demand again
+		if err := os.RemoveAll(r.Dir); err != nil {
+			return nil
+		}
+		r.recs = nil // what an outside party deleted is no longer the sink's to account for
+		r.stream, r.active, r.extRen = nil, nil, false
+		r.foreign = map[string]bool{}
+		r.Sum.Wipes++
+		if v := r.Step(Op{K: "reopen"}); v != nil {
+			return v
+		}
+		if r.unsure {
+			return &Violation{"C15", "the log directory was removed and Reopen failed instead of creating it on demand"}
+		}
 		return nil
 	case "touch":
 		// an outside process (log shipper, backup restore) touches an old rotated file: its mtime becomes the newest
